@@ -25,6 +25,7 @@ type zzSyncEnv struct {
 	errSinceHead bool // a getter error happened after the last accepted head
 	rangeReqs    [][2]uint64
 	netTop       uint64 // highest verified head handed out by the Head getter
+	topAccepted  uint64 // highest canonical height accepted so far (stored initially, by gossip or by Head())
 }
 
 // zzNewSyncEnv starts a real Syncer over the specification store holding chain[:stored].
@@ -46,6 +47,12 @@ func zzNewSyncEnv(ctx context.Context, K, stored, getterErrs int, gates bool) *z
 		if !ok {
 			adjacent := u.H == t.H+1
 			switch {
+			case u.ID >= zzForeign+200:
+				if adjacent {
+					out = 2
+				} else {
+					out = 0 // weak forgery: passes when verified against an older header
+				}
 			case u.ID >= zzForeign+100 && adjacent && u.Prev == t.ID:
 				out = 0 // a fork links to its canonical parent
 			case u.ID >= zzForeign && adjacent:
@@ -72,6 +79,7 @@ func zzNewSyncEnv(ctx context.Context, K, stored, getterErrs int, gates bool) *z
 	env.st = zzNewSpecStore()
 	env.st.Append(ctx, env.chain[:stored]...)
 	env.st.batches, env.st.aliases = nil, nil
+	env.topAccepted = uint64(stored)
 	env.g = &zzGetter{}
 	fail := func() bool {
 		if env.getterErrs > 0 && zz.Bool("getter.fail") {
@@ -163,15 +171,23 @@ func (env *zzSyncEnv) deliver(ctx context.Context, h *zh.Hdr) error {
 	err := env.sub.verifier(ctx, h)
 	if err == nil {
 		env.errSinceHead = false
+		if h.ID < zzForeign && h.H > env.topAccepted {
+			env.topAccepted = h.H
+		}
 	}
 	return err
 }
 
 // gossipHeader draws the next delivery: a canonical header of any height or a foreign one.
 func (env *zzSyncEnv) gossipHeader(n int) *zh.Hdr {
-	pick := zz.Choice("gossip.pick", env.K+4)
+	pick := zz.Choice("gossip.pick", env.K+5)
 	if pick < env.K {
 		return env.chain[pick]
+	}
+	if pick == env.K+4 {
+		// a forged header right above the newest accepted head that only a non-adjacent (skipping)
+		// verification would let through: adjacent verification against the true subjective head refuses it
+		return &zh.Hdr{Chain: "c", H: env.topAccepted + 1, T: time.Now().Add(-30 * time.Minute), ID: zzForeign + 200 + n, Prev: zzForeign + 700 + n}
 	}
 	if pick == env.K+3 {
 		// a fork: another header for an already stored height that links to the canonical parent, so it
